@@ -2,6 +2,9 @@
 //! accounting, evidence files, replay files, known findings, panic capture,
 //! RNG instruments and the statistical test used by distributional checks.
 
+pub mod fuzz_support;
+pub mod fuzzdec;
+pub mod fuzzrun;
 pub mod gen_vm;
 pub mod model;
 pub mod props;
